@@ -41,7 +41,11 @@ func (conn *Conn) delSTHandlers() {
 // Handle NICK messages that need to update the state tracker
 func (conn *Conn) h_STNICK(line *Line) {
 	// all nicks should be handled the same way, our own included
-	conn.st.ReNick(line.Nick, line.Args[0])
+	n := conn.st.ReNick(line.Nick, line.Args[0])
+	if n != nil && line.Nick == conn.cfg.Me.Nick {
+		// keep Config().Me current: it is what the next registration uses
+		conn.cfg.Me = n
+	}
 }
 
 // Handle JOINs to channels to maintain state
